@@ -88,6 +88,33 @@ on_fault(int sig, siginfo_t *si, void *u)
         _exit(3);
 }
 
+/* virtual CPUID presets, written into the LIBRARY's copy of the hook variables (a direct reference
+   from the executable would get a copy relocation that the -Bsymbolic library never reads) */
+static uint32_t *so_cpuid_on, *so_cpuid_tab;
+static int
+so_preset(const char *name)
+{
+        uint32_t sse = C1_SSE41 | C1_SSE42 | C1_AES | C1_PCLMUL, avx = sse | C1_AVX | C1_OSXSAVE;
+        uint32_t g1 = C7B_AVX512F | C7B_AVX512DQ | C7B_AVX512CD | C7B_AVX512BW | C7B_AVX512VL;
+        uint32_t g2 = C7C_VBMI2 | C7C_GFNI | C7C_VAES | C7C_VPCLMULQDQ | C7C_VNNI | C7C_BITALG | C7C_VPOPCNTDQ;
+        uint32_t l1c = 0, l7b = 0, l7c = 0, xcr0 = 0;
+        if (!so_cpuid_on || !so_cpuid_tab) return -1;
+        if (!strcmp(name, "host")) { *so_cpuid_on = 0; return 0; }
+        else if (!strcmp(name, "base")) {}
+        else if (!strcmp(name, "sse")) l1c = sse;
+        else if (!strcmp(name, "avx")) { l1c = avx; xcr0 = 6; }
+        else if (!strcmp(name, "avx2")) { l1c = avx; l7b = C7B_AVX2; xcr0 = 6; }
+        else if (!strcmp(name, "avx512")) { l1c = avx; l7b = C7B_AVX2 | g1; xcr0 = 0xe6; }
+        else if (!strcmp(name, "avx512g2")) { l1c = avx; l7b = C7B_AVX2 | g1 | C7B_AVX512IFMA; l7c = g2; xcr0 = 0xe6; }
+        else if (!strcmp(name, "sse_ni")) { l1c = sse; l7b = C7B_SHA; }
+        else if (!strcmp(name, "avx512_ni")) { l1c = avx; l7b = C7B_AVX2 | g1 | C7B_SHA; xcr0 = 0xe6; }
+        else return -1;
+        memset(so_cpuid_tab, 0, sizeof(uint32_t) * 10);
+        so_cpuid_tab[2] = l1c; so_cpuid_tab[5] = l7b; so_cpuid_tab[6] = l7c; so_cpuid_tab[8] = xcr0;
+        *so_cpuid_on = 1;
+        return 0;
+}
+
 /* ------------------------------------------------------------------ PRNG and result folding */
 static inline uint64_t
 sm64(uint64_t *s)
@@ -180,7 +207,7 @@ op_cbc(uint64_t *s, uint8_t *buf)
         uint64_t h = 99, len = 16 * (1 + sm64(s) % 40);
         int which = (int) (sm64(s) % 3);
         fill(key, 32, s); fill(iv, 16, s); fill(buf, 1024, s);
-        if (which == 0) { _aes_keyexp_128(key, ek, dk); _aes_cbc_enc_128(buf, iv, ek, ct, len); _aes_cbc_dec_128(ct, iv, dk, pt, len); }
+        if (which == 0) { isal_aes_keyexp_128(key, ek, dk); isal_aes_cbc_enc_128(buf, iv, ek, ct, len); isal_aes_cbc_dec_128(ct, iv, dk, pt, len); }
         else if (which == 1) { _aes_keyexp_192(key, ek, dk); _aes_cbc_enc_192(buf, iv, ek, ct, len); _aes_cbc_dec_192(ct, iv, dk, pt, len); }
         else { _aes_keyexp_256(key, ek, dk); _aes_cbc_enc_256(buf, iv, ek, ct, len); _aes_cbc_dec_256(ct, iv, dk, pt, len); }
         h = fold(h, ct, len);
@@ -204,8 +231,9 @@ op_gcm(uint64_t *s, uint8_t *buf)
         fill(key, 32, s); fill(iv, 12, s); fill(aad, 24, s); fill(in, 1024, s);
         if (k256) _aes_gcm_pre_256(key, k); else _aes_gcm_pre_128(key, k);
         if (mode == 0) {
-                if (k256) { _aes_gcm_enc_256(k, c, ct, in, len, iv, aad, 20, tag, 16); _aes_gcm_dec_256(k, c, pt, ct, len, iv, aad, 20, tag2, 16); }
-                else { _aes_gcm_enc_128(k, c, ct, in, len, iv, aad, 20, tag, 16); _aes_gcm_dec_128(k, c, pt, ct, len, iv, aad, 20, tag2, 16); }
+                /* through the public isal_* wrappers (parameter checks, FIPS gate, then the dispatched entry) */
+                if (k256) { isal_aes_gcm_enc_256(k, c, ct, in, len, iv, aad, 20, tag, 16); isal_aes_gcm_dec_256(k, c, pt, ct, len, iv, aad, 20, tag2, 16); }
+                else { isal_aes_gcm_enc_128(k, c, ct, in, len, iv, aad, 20, tag, 16); isal_aes_gcm_dec_128(k, c, pt, ct, len, iv, aad, 20, tag2, 16); }
         } else if (mode == 1) {
                 if (k256) {
                         _aes_gcm_init_256(k, c, iv, aad, 20); _aes_gcm_enc_256_update(k, c, ct, in, cut); _aes_gcm_enc_256_update(k, c, ct + cut, in + cut, len - cut);
@@ -253,7 +281,7 @@ op_xts(uint64_t *s, uint8_t *buf)
                 _XTS_AES_256_enc_expanded_key(e2, e1, tw, len, buf, ct2); h = fold(h, ct2, len);
                 _XTS_AES_256_dec_expanded_key(e2, d1, tw, len, ct2, ct2);
         } else {
-                _XTS_AES_128_enc(k2, k1, tw, len, buf, ct); _XTS_AES_128_dec(k2, k1, tw, len, ct, pt);
+                isal_aes_xts_enc_128(k2, k1, tw, len, buf, ct); isal_aes_xts_dec_128(k2, k1, tw, len, ct, pt);
                 _aes_keyexp_128(k1, e1, d1); _aes_keyexp_128(k2, e2, d2);
                 _XTS_AES_128_enc_expanded_key(e2, e1, tw, len, buf, ct2); h = fold(h, ct2, len);
                 _XTS_AES_128_dec_expanded_key(e2, d1, tw, len, ct2, ct2);
@@ -350,6 +378,11 @@ main(int argc, char **argv)
         }
         dl_iterate_phdr(phdr_cb, NULL);
         if (!rw_lo) { printf("NOMAP\n"); return 2; }
+        {
+                void *lib = dlopen("libisalverif.so", RTLD_NOW | RTLD_NOLOAD);
+                if (lib) { so_cpuid_on = dlsym(lib, "verif_cpuid_on"); so_cpuid_tab = dlsym(lib, "verif_cpuid_tab"); }
+                if (!so_cpuid_on || !so_cpuid_tab || (uintptr_t) so_cpuid_on < rw_lo || (uintptr_t) so_cpuid_on >= rw_hi) { printf("NOHOOK\n"); return 2; }
+        }
         for (int i = 0; i < ne; i++)
                 printf("PTR %s %lx mod64=%lu unbound=%d\n", names[i], (unsigned long) ((uintptr_t) ptrs[i] - so_base),
                        (unsigned long) ((uintptr_t) ptrs[i] % 64), *ptrs[i] == mbinit[i]);
@@ -360,35 +393,54 @@ main(int argc, char **argv)
         sigaction(SIGSEGV, &sa, NULL);
         sigaction(SIGBUS, &sa, NULL);
 
-        /* ---------------- phase A */
+        /* ---------------- phase A, once per implementation family (virtual CPUID presets of the hook
+           build: the real dispatchers bind the family; a static written by one family only must
+           show up when that family runs) */
         int fips = isal_self_tests();      /* 0 in a FIPS build: verdict published before protection */
         struct job *jobs = calloc((size_t) nth, sizeof *jobs), *ref = calloc((size_t) nth, sizeof *ref);
         for (int t = 0; t < nth; t++) {
-                jobs[t].seed = ref[t].seed = seed * 1000003 + (uint64_t) t * 7919;
-                jobs[t].nops = ref[t].nops = nops;
-                jobs[t].rotate = ref[t].rotate = -1;
                 jobs[t].res = calloc((size_t) nops, 8);
                 ref[t].res = calloc((size_t) nops, 8);
-                run_job(&ref[t]);            /* sequential reference (binds what the mix uses) */
         }
-        /* one pass over every operation kind so that every entry the mix can reach is bound */
+        static const char *presets[] = { "host", "base", "sse", "avx", "avx2", "avx512", "avx512g2", "sse_ni", "avx512_ni" };
+        for (int pi = 0; pi < 9; pi++) {
+                if (so_preset(presets[pi])) continue;
+                for (int i = 0; i < ne; i++) *ptrs[i] = mbinit[i];
+                for (int t = 0; t < nth; t++) {
+                        jobs[t].seed = ref[t].seed = seed * 1000003 + (uint64_t) t * 7919 + (uint64_t) pi * 104729;
+                        jobs[t].nops = ref[t].nops = nops;
+                        jobs[t].rotate = ref[t].rotate = -1;
+                        run_job(&ref[t]);            /* sequential reference (binds what the mix uses) */
+                }
+                /* one pass over every operation kind so that every entry the mix can reach is bound */
+                { uint64_t r[NOPS * 4]; struct job w = { seed ^ 0x5555, NOPS * 4, r, 0 }; run_job(&w); }
+                int nbound = 0;
+                for (int i = 0; i < ne; i++) { bound[i] = *ptrs[i]; nbound += bound[i] != mbinit[i]; }
+                if (mprotect((void *) rw_lo, rw_hi - rw_lo, PROT_READ)) { perror("mprotect"); return 2; }
+                run_parallel(jobs, nth);
+                if (mprotect((void *) rw_lo, rw_hi - rw_lo, PROT_READ | PROT_WRITE)) { perror("mprotect"); return 2; }
+                long diff = 0;
+                for (int t = 0; t < nth; t++)
+                        for (int i = 0; i < nops; i++) diff += jobs[t].res[i] != ref[t].res[i];
+                const char *sample = "?";
+                for (int i = 0; i < ne; i++)
+                        if (!strcmp(names[i], "_sha256_ctx_mgr_submit")) {
+                                Dl_info di;
+                                if (dladdr(*ptrs[i], &di) && di.dli_sname) sample = di.dli_sname;
+                        }
+                printf("A family=%s threads=%d ops=%d protected_bytes=%lu entries=%d bound=%d fips_ret=%d result_mismatches=%ld sha256_submit=%s\n", presets[pi], nth, nops,
+                       (unsigned long) (rw_hi - rw_lo), ne, nbound, fips, diff, sample);
+                fflush(stdout);
+        }
+        so_preset("host");
+        for (int i = 0; i < ne; i++) *ptrs[i] = mbinit[i];
         { uint64_t r[NOPS * 4]; struct job w = { seed ^ 0x5555, NOPS * 4, r, 0 }; run_job(&w); }
-        int nbound = 0;
-        for (int i = 0; i < ne; i++) { bound[i] = *ptrs[i]; nbound += bound[i] != mbinit[i]; }
-        if (mprotect((void *) rw_lo, rw_hi - rw_lo, PROT_READ)) { perror("mprotect"); return 2; }
-        run_parallel(jobs, nth);
-        if (mprotect((void *) rw_lo, rw_hi - rw_lo, PROT_READ | PROT_WRITE)) { perror("mprotect"); return 2; }
-        long diff = 0, selfbad = 0;
-        for (int t = 0; t < nth; t++)
-                for (int i = 0; i < nops; i++) diff += jobs[t].res[i] != ref[t].res[i];
-        printf("A threads=%d ops=%d protected_bytes=%lu entries=%d bound=%d fips_ret=%d result_mismatches=%ld\n", nth, nops,
-               (unsigned long) (rw_hi - rw_lo), ne, nbound, fips, diff);
-        fflush(stdout);
+        for (int i = 0; i < ne; i++) bound[i] = *ptrs[i];
 
         /* ---------------- phase B */
         int nb = 16;
         struct job bj[16], br[16];
-        long bdiff = 0, unbound_after = 0, wrong_target = 0;
+        long bdiff = 0, unbound_after = 0, wrong_target = 0, selfbad = 0;
         for (int t = 0; t < nb; t++) {
                 bj[t].nops = br[t].nops = NOPS;
                 bj[t].res = calloc(NOPS, 8);
